@@ -213,6 +213,10 @@ func (a *asyncFifoRetryImpl) retry(ctx context.Context) (breakLoop bool) {
 			state = retryFailedPut
 			if errors.Is(err, storage.ErrUncertainResult) {
 				state = retryUnknownPut
+				// the rewrite itself may or may not have landed: keep the head queued as well, so that
+				// whichever revision the store ends up holding (the old one or the one just queued by
+				// the dispatcher) is still repaired and gets its event; try again at the next tick
+				return true
 			}
 		}
 	}
